@@ -81,19 +81,23 @@ def add_scheme(reg):
     em = S + 'rsassa_pkcs1_v15_em(%s, msg_hash.oid.g_id, %s)' % (K_, H)
     fits = S + 'emsa_pkcs1_v15_fits(%s, %s)' % (T('True'), K_)
     sig = 'i2osp(pow(be(%s), %s, %s), %s)' % (em, D_, N_, K_)
-    in_range = 'be(%s) < %s' % (em, N_)
     reg.add(Contract(P + 'PKCS115_SigScheme.sign', params={'msg_hash': OHASH},
                      raises={
-                         # 9.2 step 3 (key too short for the hash) | 5.2.1 RSASP1 "message representative out of range" (cannot
-                         # occur: EM starts with 00, so OS2IP(EM) < 256^(k-1) <= n) | the fault check: a signature that does not
-                         # verify under (n, e) is never released
-                         'ValueError': ('iff', 'not %s or not %s or (hasattr(self._key, "_d") and be(%s) != pow(be(%s), %s, %s))'
-                                        % (fits, in_range, em, sig, E_, N_)),
-                         'TypeError': ('iff', '%s and %s and not hasattr(self._key, "_d")' % (fits, in_range))},
+                         # 9.2 step 3 (key too short for the hash) | the fault check: a signature that does not verify under
+                         # (n, e) is never released.  RSASP1's "message representative out of range" (5.2.1) cannot occur: EM starts
+                         # with 00, so OS2IP(EM) < 256^(k-1) <= n -- PROVED here (engine option int_lemmas: ground facts of base-256
+                         # notation and of bit_length), so that refusal of _decrypt_to_bytes is dead code on this path
+                         'ValueError': ('iff', 'not %s or (hasattr(self._key, "_d") and be(%s) != pow(be(%s), %s, %s))'
+                                        % (fits, em, sig, E_, N_)),
+                         'TypeError': ('iff', '%s and not hasattr(self._key, "_d")' % fits)},
                      ensures={'rfc8017_8_2_1': 'result == ' + sig,
                               'length': 'len(result) == ' + K_,
+                              # deterministic: the result is this function of (key, hash) alone; the blinding factor drawn inside
+                              # _decrypt_to_bytes (one system draw: unit sig.pkcs1.RsaKey._decrypt_to_bytes.body) does not
+                              # influence the value by the assumed contract
                               'verifies': 'pow(be(result), %s, %s) == be(%s)' % (E_, N_, em)},
                      modifies=[],
+                     options={'int_lemmas': []},
                      opaque=['spec.der.encode_length', S + 'digest_info']))
 
 
